@@ -617,3 +617,119 @@ Proof.
   assert (Hne : sync_abs d c <> []) by (rewrite Hq; discriminate).
   apply Hr in Hne. split; [exact Hne|]. destruct (Hh Hne) as [t' Ht]. congruence.
 Qed.
+
+(* ------------------------------------------------------------------ runs with synchronous resets *)
+Lemma core_reset_inv d c : 1 <= d -> core_inv d c -> core_inv d (core_reset c).
+Proof.
+  intros Hd (Hlen & _). unfold core_inv, core_reset; cbn [rows consume lvl produce].
+  repeat split; try lia. all: try (rewrite Z.mod_0_l; lia).
+Qed.
+
+Lemma core_reset_abs d c : core_abs d (core_reset c) = [].
+Proof. reflexivity. Qed.
+
+Lemma reach_r_inv {S} (step : S -> inp * bool -> S * out) (inv : S -> Prop) :
+  (forall s i, inv s -> inv (fst (step s i))) ->
+  forall ins s, inv s -> inv (reach_r step s ins).
+Proof. intros H. induction ins as [|i r IH]; intros s Hs; cbn [reach_r]; auto. Qed.
+
+Lemma sync_reset_inv d c : sync_inv d c -> sync_inv d (core_reset c).
+Proof. intros [H|[H1 H2]]; [left; auto|right; split; auto using core_reset_inv]. Qed.
+
+Lemma sync_reset_abs d c : sync_abs d (core_reset c) = [].
+Proof. unfold sync_abs. destruct (d =? 0); reflexivity. Qed.
+
+Lemma sync_reach_r_inv w d ins : 0 <= d -> sync_inv d (sync_reach_r w d ins).
+Proof.
+  intros Hd. unfold sync_reach_r. apply reach_r_inv; [|apply sync_init_inv; assumption].
+  intros s [i r] Hs. unfold sync_step_r; cbn [fst snd].
+  pose proof (proj1 (sync_step_sim w d s i Hd Hs)) as Hi.
+  destruct r; [apply sync_reset_inv|]; exact Hi.
+Qed.
+
+(* the clauses of the property at every state reachable with resets; a reset empties the queue *)
+Theorem sync_refines_queue_r w d ins i r : 0 <= d ->
+  let c := sync_reach_r w d ins in
+  let o := snd (sync_step_r w d c (i, r)) in
+  let c' := fst (sync_step_r w d c (i, r)) in
+  let q := sync_abs d c in
+  (r_rdy o = true <-> q <> []) /\
+  (r_rdy o = true -> exists t, q = r_data o :: t) /\
+  (w_rdy o = true <-> qlen q < d) /\
+  level o = qlen q /\ w_level o = qlen q /\ r_level o = qlen q /\
+  qlen q <= d /\
+  sync_abs d c' = if r then [] else q_next w q (w_rdy o && w_en i) (w_data i) (r_rdy o && r_en i).
+Proof.
+  intros Hd c o c' q.
+  pose proof (sync_reach_r_inv w d ins Hd) as Hinv. fold c in Hinv.
+  unfold o, c', sync_step_r; cbn [fst snd].
+  destruct (sync_step_sim w d c i Hd Hinv) as (Hi & Ha & Ho).
+  destruct (sync_step_abs w d c i Hd Hinv) as (Hh & Hn).
+  set (o1 := snd (sync_step w d c i)) in *. fold q in Ha, Ho, Hh, Hn.
+  unfold q_step in Ho. cbn [fst snd] in Ho.
+  assert (Hw : w_rdy o1 = (qlen q <? d)) by (apply (f_equal w_rdy) in Ho; exact Ho).
+  assert (Hr : r_rdy o1 = negb (qlen q =? 0)) by (apply (f_equal r_rdy) in Ho; exact Ho).
+  assert (Hl1 : level o1 = qlen q) by (apply (f_equal level) in Ho; exact Ho).
+  assert (Hl2 : w_level o1 = qlen q) by (apply (f_equal w_level) in Ho; exact Ho).
+  assert (Hl3 : r_level o1 = qlen q) by (apply (f_equal r_level) in Ho; exact Ho).
+  assert (Hcap : qlen q <= d).
+  { unfold q, sync_abs. destruct (d =? 0) eqn:E0; [cbn; lia|].
+    destruct Hinv as [?|[H1 Hc]]; [lia|]. destruct Hc as (_ & _ & Hl & _).
+    rewrite core_abs_length; lia. }
+  repeat split; auto.
+  - intros H E. rewrite Hr, E in H. discriminate.
+  - intros H. rewrite Hr. destruct q; [congruence|]. reflexivity.
+  - rewrite Hw. lia.
+  - rewrite Hw. lia.
+  - destruct r; [apply sync_reset_abs|exact Hn].
+Qed.
+
+Lemma buf_reset_inv d s : buf_inv d s -> buf_inv d (buf_reset s).
+Proof.
+  intros [H|[[H1 H2]|[H1 H2]]]; [left; auto| |].
+  - right; left. split; [exact H1|]. left; reflexivity.
+  - right; right. split; [exact H1|]. unfold buf_reset; cbn [inner]. apply core_reset_inv; [lia|assumption].
+Qed.
+
+Lemma buf_reset_abs d s : buf_abs d (buf_reset s) = [].
+Proof. unfold buf_abs. destruct (d =? 0); [reflexivity|]. destruct (d =? 1); reflexivity. Qed.
+
+Lemma buf_reach_r_inv w d ins : 0 <= d -> buf_inv d (buf_reach_r w d ins).
+Proof.
+  intros Hd. unfold buf_reach_r. apply reach_r_inv; [|apply buf_init_inv; assumption].
+  intros s [i r] Hs. unfold buf_step_r; cbn [fst snd].
+  pose proof (proj1 (buf_step_ok w d s i Hd Hs)) as Hi.
+  destruct r; [apply buf_reset_inv|]; exact Hi.
+Qed.
+
+Theorem buf_refines_queue_r w d ins i r : 0 <= d ->
+  let s := buf_reach_r w d ins in
+  let o := snd (buf_step_r w d s (i, r)) in
+  let s' := fst (buf_step_r w d s (i, r)) in
+  let q := buf_abs d s in
+  (r_rdy o = true -> exists t, q = r_data o :: t) /\
+  (w_rdy o = true -> qlen q < d) /\
+  (qlen q + 2 <= d -> w_rdy o = true) /\
+  level o = qlen q /\ w_level o = qlen q /\ r_level o = qlen q /\
+  qlen q <= d /\
+  buf_abs d s' = if r then [] else q_next w q (w_rdy o && w_en i) (w_data i) (r_rdy o && r_en i).
+Proof.
+  intros Hd s o s' q.
+  pose proof (buf_reach_r_inv w d ins Hd) as Hinv. fold s in Hinv.
+  unfold o, s', buf_step_r; cbn [fst snd].
+  destruct (buf_step_ok w d s i Hd Hinv) as (Hi & Hh & Hn & Hw1 & Hw2 & _ & _ & Hl1 & Hl2 & Hl3 & Hcap).
+  fold q in Hh, Hn, Hw1, Hw2, Hl1, Hl2, Hl3, Hcap.
+  repeat split; auto.
+  destruct r; [apply buf_reset_abs|exact Hn].
+Qed.
+
+(* after a reset the oldest entry is again readable within two cycles (same statement, runs with resets) *)
+Theorem buf_readable_within_two_r w d ins i x t : 0 <= d ->
+  let s := buf_reach_r w d ins in
+  buf_abs d s = x :: t ->
+  (r_rdy (buf_out d s) = true /\ r_data (buf_out d s) = x) \/
+  (r_rdy (buf_out d (fst (buf_step w d s i))) = true /\
+   r_data (buf_out d (fst (buf_step w d s i))) = x).
+Proof.
+  intros Hd s Hq. apply buf_readable_step with (t := t); auto. apply buf_reach_r_inv; assumption.
+Qed.
